@@ -2,7 +2,7 @@
    Only statements; every proof is `exact <lemma>` from proofs/.  Cost laws: generated real functions (gen/Scalar.v).
    Area: rational model (model/Area.v) with the log-mean temperature difference supplied as data / as a Section variable. *)
 From Coq Require Import Reals QArith List.
-From OP Require Import gen.Consts gen.HxDispatch gen.Scalar model.Base model.Area model.TDF proofs.Cost proofs.Area
+From OP Require Import gen.Consts gen.HxDispatch gen.Scalar model.Base model.Area model.TDF proofs.Cost proofs.CostReal proofs.Area
   proofs.TDFGrid proofs.TDFBlock proofs.TDFInterp proofs.TDFMain.
 From Coq Require Import Sorted.
 
@@ -26,6 +26,24 @@ Print Assumptions C15_crf_annuity.
 Theorem C15_crf_real_partial : forall i n : R, (0 < i)%R -> (0 < n)%R -> (i < compute_capital_recovery_factor_R i n)%R.
 Proof. exact crf_real_partial. Qed.
 Print Assumptions C15_crf_real_partial.
+(* CLOSED for a real-valued life in closed form: the annuity sum extends to real n as its present-value factor
+   (1 - (1+i)^-n)/i (equal to `annuity` at every integer life), and the factor is its reciprocal for EVERY real life n > 0 *)
+Theorem C15_annuity_factor_nat : forall (i : R) (n : nat), (0 < i)%R -> annuity_factor i (INR n) = annuity i n.
+Proof. exact annuity_factor_nat. Qed.
+Print Assumptions C15_annuity_factor_nat.
+Theorem C15_crf_annuity_real : forall i n : R, (0 < i)%R -> (0 < n)%R ->
+  (compute_capital_recovery_factor_R i n * annuity_factor i n = 1)%R.
+Proof. exact crf_annuity_real. Qed.
+Print Assumptions C15_crf_annuity_real.
+(* a longer service life strictly lowers the yearly charge; the charge on a positive capital is positive *)
+Theorem C15_crf_decreasing_in_life : forall i n1 n2 : R, (0 < i)%R -> (0 < n1)%R -> (n1 < n2)%R ->
+  (compute_capital_recovery_factor_R i n2 < compute_capital_recovery_factor_R i n1)%R.
+Proof. exact crf_decreasing_in_life. Qed.
+Print Assumptions C15_crf_decreasing_in_life.
+Theorem C15_annual_cost_positive : forall K i n : R, (0 < K)%R -> (0 < i)%R -> (0 < n)%R ->
+  (0 < compute_annual_capital_cost_R K i n)%R.
+Proof. exact annual_cost_positive. Qed.
+Print Assumptions C15_annual_cost_positive.
 
 (* both costs increase with area (positive unit count, variable cost factor and exponent; positive rate and life) *)
 Theorem C15_cost_increasing_in_area : forall A1 A2 N a b c : R, (0 < A1)%R -> (A1 < A2)%R -> (0 < N)%R -> (0 < b)%R -> (0 < c)%R ->
